@@ -148,6 +148,11 @@ def chunk_req_headers(chunk, acc):
             for body in BODIES if n <= 1 else BODIES[:3]:
                 for params in ([], [(b"q", b"1")]):
                     check_request(acc, b"GET", b"/h", params, list(hs), body)
+    # header names are byte strings: names that differ only in letter case are different keys
+    for hs in ([(b"Host", b"a"), (b"host", b"b")], [(b"x-id", b"1"), (b"X-ID", b"2"), (b"X-Id", b"3")], [(b"cookie", b"a"), (b"Accept", b"*/*"), (b"Cookie", b"b")]):
+        acc.states += 1
+        check_request(acc, b"GET", b"/h", [], hs, b"x")
+        check_request(acc, b"POST", b"/h", [(b"q", b"1")], hs[::-1], b"")
     # header maps and bodies are independent: a Content-Length that is smaller / larger than the body, or zero
     for cl in (b"0", b"1", b"16", b"999999", b"-1", b"abc"):
         for body in BODIES:
